@@ -360,11 +360,12 @@ func RunDriver(o DriverOpts) int {
 			fmt.Printf("goatsim: note: probe %q stayed at zero in this run\n", p)
 		}
 	}
+	if reported > 0 {
+		// a violation that reproduced from its own replay file stands, whatever else went wrong
+		return 1
+	}
 	if infra > 0 {
 		return 2
-	}
-	if reported > 0 {
-		return 1
 	}
 	if total.Evaluations == 0 {
 		fmt.Println("goatsim: INFRASTRUCTURE: nothing was executed")
